@@ -8,7 +8,9 @@ Two loaders of the given kind (L0, L1) with separate stores; the environment sta
 L0 initially holds every name but the last at version 0, L1 holds every name at version 1.
 ``put`` writes version v of the name into the *current* loader's store (modify when present - also with
 the same version, i.e. an equal but newly created source / a rewritten file -, add when absent),
-``del`` removes it, ``swap`` assigns the other loader to ``env.loader``.  Every version renders a text
+``put`` may carry a 4th element "earlier": the modification stamp (the file mtime for the FileSystemLoader) then
+moves *backwards* to a value older than every stamp used so far (backup restore, timestamp-preserving deploy);
+the default moves it forwards.  A stamp never repeats.  ``del`` removes it, ``swap`` assigns the other loader to ``env.loader``.  Every version renders a text
 naming loader, name and version, so the rendered output identifies the source that was compiled.
 
 Oracle: a reference cache model (LRU keyed by (loader, name), storing the version/stamp compiled).
@@ -27,7 +29,7 @@ from vt import core
 PID = "C25"
 LEVEL = "exploration"
 RULE = (
-    "exhaustive histories ending in a fetch over {get(n), select([n, m]), put(n, v), del(n), swap loader} for 2 names x 2 versions "
+    "exhaustive histories ending in a fetch over {get(n), select([n, m]), put(n, v) (FileSystemLoader: with a later and with an earlier mtime), del(n), swap loader} for 2 names x 2 versions "
     "(length <= 4 quick / <= 5 thorough, plus length 6 on cache sizes 1 and 2: full alphabet on DictLoader, get/put/del only on the other loaders) and 3 names x 2 versions (length <= 3, plus length 4 on DictLoader with "
     "cache size 2, quick / <= 4, plus length 5 on DictLoader with cache size 2, thorough) "
     "x cache sizes {0, 1, 2, -1} x auto_reload {on, off} x {DictLoader, FunctionLoader returning str, FunctionLoader with an "
@@ -41,11 +43,13 @@ ASSUMPTIONS = [
     "FunctionLoader whatever callback the load function returns (here: a modification stamp); no callback = never stale",
     "after a failed reload (source deleted, cached entry stale) the model admits three cache states (entry kept / kept and made most recent / dropped)",
     "a compilation is counted as one call of Environment._generate; no bytecode cache is configured",
-    "FileSystemLoader mtimes are set with os.utime from a per-case counter (whole seconds), so every rewrite is visible to the mtime comparison",
+    "FileSystemLoader mtimes are set with os.utime from per-case counters (whole seconds) that move forwards or, for puts marked 'earlier', backwards; "
+    "a rewrite never re-uses an mtime (equal mtime with different content is the documented blind spot of mtime checks), so every rewrite is visible to the comparison",
 ]
 
 NAMES = "abc"
 KINDS = ["dict", "func", "func_utd", "fs"]
+MEM = ["dict", "func", "func_utd"]
 CACHES = [0, 1, 2, -1]
 HAS_UTD = {"dict": True, "func": False, "func_utd": True, "fs": True}
 BASE_MTIME = 1_500_000_000
@@ -124,7 +128,8 @@ class Run:
         self.names = NAMES[:names]
         self.TemplateNotFound = jinja2.TemplateNotFound
         self.TemplatesNotFound = jinja2.TemplatesNotFound
-        self.stamp = 0
+        self.stamp = 0  # newest stamp handed out
+        self.lo = 0  # oldest stamp handed out ("earlier" puts count downwards)
         self.store = [{}, {}]  # name -> (version, stamp)
         self.dir = None
         self.closed = False
@@ -189,14 +194,19 @@ class Run:
 
         return load
 
-    def _put(self, li, name, version):
-        self.stamp += 1
-        self.store[li][name] = (version, self.stamp)
+    def _put(self, li, name, version, earlier=False):
+        if earlier:
+            self.lo -= 1
+            stamp = self.lo
+        else:
+            self.stamp += 1
+            stamp = self.stamp
+        self.store[li][name] = (version, stamp)
         src = "".join(list(source_text(li, name, version)))  # a new string object every time
         if self.kind == "dict":
             self.maps[li][name] = src
         elif self.kind == "fs" and self.materialized[li]:
-            self._write(li, name, src, self.stamp)
+            self._write(li, name, src, stamp)
 
     def _write(self, li, name, src, stamp):
         path = os.path.join(self.dir, "L%d" % li, name)
@@ -259,7 +269,12 @@ class Run:
         if name == "put":
             if self.store[self.cur].get(op[1], (None,))[0] == op[2]:
                 self.labels.add("rewrite_same")
-            self._put(self.cur, op[1], op[2])
+            if len(op) > 3 and op[3] not in ("earlier", "later"):
+                raise core.HarnessError("unknown put direction %r" % (op,))
+            earlier = len(op) > 3 and op[3] == "earlier"
+            if earlier:
+                self.labels.add("stamp_earlier")
+            self._put(self.cur, op[1], op[2], earlier)
         elif name == "del":
             self._del(self.cur, op[1])
         elif name == "swap":
@@ -376,12 +391,14 @@ def check_case(case):
 # generators
 
 
-def alphabet(nnames, nversions, full=True):
+def alphabet(nnames, nversions, full=True, earlier=False):
     names = NAMES[:nnames]
     fetch = [["get", n] for n in names]
     if full:
         fetch += [["select", n, m] for n in names for m in names if n != m]
     other = [["put", n, v] for n in names for v in range(nversions)] + [["del", n] for n in names]
+    if earlier:
+        other += [["put", n, v, "earlier"] for n in names for v in range(nversions)]
     if full:
         other.append(["swap"])
     return fetch, other
@@ -394,10 +411,10 @@ def configs(kinds=KINDS, caches=CACHES):
                 yield kind, cap, auto
 
 
-def histories(nnames, nversions, lengths, kinds=KINDS, caches=CACHES, full=True):
+def histories(nnames, nversions, lengths, kinds=KINDS, caches=CACHES, full=True, earlier=False):
     """Every history of the given lengths whose last operation is a fetch (a history ending in a store
     operation makes the same observations as its prefix), as (nnames, history, kinds, caches)."""
-    fetch, other = alphabet(nnames, nversions, full)
+    fetch, other = alphabet(nnames, nversions, full, earlier)
     ops = fetch + other
     for n in lengths:
         for head in itertools.product(ops, repeat=n - 1):
@@ -454,9 +471,9 @@ def _run_machine(ctx, rec, max_examples, steps, tag):
         def select(self, n, m):
             self._do(["select", n, m])
 
-        @rule(n=names, v=st.integers(0, 2))
-        def put(self, n, v):
-            self._do(["put", n, v])
+        @rule(n=names, v=st.integers(0, 2), earlier=st.booleans())
+        def put(self, n, v, earlier):
+            self._do(["put", n, v, "earlier"] if earlier else ["put", n, v])
 
         @rule(n=names)
         def delete(self, n):
@@ -510,13 +527,23 @@ def shards(tier):
 
 def all_enumerated(tier):
     if tier == "quick":
-        return itertools.chain(histories(2, 2, range(1, 5)), histories(3, 2, range(1, 4)), histories(3, 2, [4], kinds=["dict"], caches=[2]))
+        return itertools.chain(
+            histories(2, 2, range(1, 5), kinds=MEM), histories(2, 2, range(1, 5), kinds=["fs"], earlier=True),
+            histories(3, 2, range(1, 4), kinds=MEM), histories(3, 2, range(1, 4), kinds=["fs"], earlier=True),
+            histories(3, 2, [4], kinds=["dict"], caches=[2]),
+        )
     return itertools.chain(
-        histories(2, 2, range(1, 6)),
-        histories(3, 2, range(1, 5)),
+        histories(2, 2, range(1, 6), kinds=MEM),
+        histories(2, 2, range(1, 5), kinds=["fs"], earlier=True),
+        histories(2, 2, [5], kinds=["fs"]),
+        histories(3, 2, range(1, 5), kinds=MEM),
+        histories(3, 2, range(1, 4), kinds=["fs"], earlier=True),
+        histories(3, 2, [4], kinds=["fs"]),
         histories(3, 2, [5], kinds=["dict"], caches=[2]),
         histories(2, 2, [6], kinds=["dict"], caches=[1, 2]),
-        histories(2, 2, [6], kinds=["func", "func_utd", "fs"], caches=[1, 2], full=False),
+        histories(2, 2, [6], kinds=["func", "func_utd"], caches=[1, 2], full=False),
+        histories(2, 2, [5], kinds=["fs"], caches=[1, 2], full=False, earlier=True),
+        histories(2, 2, [6], kinds=["fs"], caches=[1, 2], full=False),
     )
 
 
@@ -538,7 +565,7 @@ def floors(total, tier):
         return None
     lab = total.labels
     need = {"evict": 500, "stale_served": 500, "notfound": 500, "ambiguous_state": 100, "swap": 500, "select_fallback": 200,
-            "rewrite_same": 200, "hit": 500, "compiled": 500}
+            "rewrite_same": 200, "stamp_earlier": 500, "hit": 500, "compiled": 500}
     for k in KINDS:
         need["loader=" + k] = 1000
     low = ["%s=%d (< %d)" % (k, lab.get(k, 0), v) for k, v in need.items() if lab.get(k, 0) < v]
